@@ -1,19 +1,52 @@
 (* C06 -- emitted AML parses back to exactly the term tree the caller built.  Statements only.
-   The full statement is c06_roundtrip (stated over the whole term language, see DESIGN.md section 5 C06);
-   the parts proved so far are listed below it. *)
+
+   c06_roundtrip is the full parse-back statement for every tree over the constructors
+     ZERO ONE ONES, integers (all five carrier types), strings, Path, field names, EISAName, Uuid, BufferData, Arg, Local,
+     ObjectType SizeOf Return DeRefOf BufferTerm VarPackageTerm, the six comparisons, Store Notify ToBuffer ToInteger,
+     the 17 binary operators, CreateField Mid, Name Device Scope Scope::raw Method PowerResource OpRegion Mutex Acquire
+     Release MethodCall, Package PackageBuilder, If Else While
+   of any shape, depth and body size (all four PkgLength widths).  Not covered by it (hence "partial" in the manifest):
+   Field (field lists) and ResourceTemplate -- the latter is the subject of the C10 template theorem. *)
 From Coq Require Import NArith List.
 From ACPI Require Import Lib.Bytes Lib.Sx Lib.Machine Impl.AmlCore Impl.AmlTerm Spec.AmlCoreS Spec.AmlTermS
-  Proofs.AmlFrameP.
+  Proofs.AmlFrameP Proofs.AmlRoundTrip.
 Import ListNotations.
 Open Scope N_scope.
 
+(* For every arity environment env (the only outside knowledge: how many arguments each invoked name takes), every
+   well-formed term t, in term position or package-element position (el), in both build profiles: if the implementation
+   model emits bytes b for t, then the tree [norm el t] exists and the Spec parser, given any fuel above the nesting depth,
+   reads from b ++ r exactly that tree and stops exactly at r -- for every continuation r.  In particular (r = []) the
+   bytes are consumed completely, and every length-delimited object ends exactly where its last child ends. *)
+Theorem c06_roundtrip :
+  forall env t el md b,
+    wf env el t -> enc md t = Some b -> N.of_nat (length b) < 2 ^ 63 ->
+    exists g, norm el t = Some g /\
+              forall f, (depth t < f)%nat -> forall r, parse env f el (b ++ r) = Some (g, r).
+Proof. intros env t. exact (roundtrip env t). Qed.
+
 (* every length-delimited object: the PkgLength the code computes for a body makes the Spec's object splitter
    recover exactly that body and stop exactly at its end, whatever follows (all four widths, all body sizes) *)
-Theorem c06_partial_frames :
+Theorem c06_frames :
   forall md body pl r,
     N.of_nat (length body) < 2 ^ 63 ->
     pkg_len md (N.of_nat (length body)) true = Some pl ->
     take_pkg (pl ++ body ++ r) = Some (body, r).
 Proof. exact take_pkg_framed. Qed.
 
-Print Assumptions c06_partial_frames.
+(* non-vacuity: a nested tree (Device { Name(_HID, EISA) ; Method(1 arg){ If (Arg0 == 5) { Return (Local0) } } }) is
+   well-formed, is emitted, and parses back *)
+Definition c06_demo : term :=
+  TDevice [95; 83; 66; 95; 46; 67; 79; 77; 49]
+    [TName [95; 72; 73; 68] (TEisa [80; 78; 80; 48; 53; 48; 49]);
+     TMethod [84; 69; 83; 84] 1 0 [TIf (TOp2 0 (TArg 0) (TInt 8 5)) [TOp1 2 (TLocal 0)]]].
+
+Example c06_demo_parses :
+  match enc Wrapping c06_demo with
+  | Some b => parse (fun _ => O) 10 false b = option_map (fun g => (g, [])) (norm false c06_demo) /\ norm false c06_demo <> None
+  | None => False
+  end.
+Proof. vm_compute. split; [reflexivity|discriminate]. Qed.
+
+Print Assumptions c06_roundtrip.
+Print Assumptions c06_frames.
